@@ -6,8 +6,8 @@
 //! limit (535/536); DER length-form boundaries (1024, 2048); more than 64 limbs (4160: anything
 //! that keeps one flag per limb in a u64 breaks there). BITS % 8 covers every residue.
 //!
-//! Set B (cargo feature `widths-b`, built by the thorough tier into its own target directory) —
-//! 42 further widths of the same shape classes (other residues, other limb counts incl. 9..15
+//! Set B (cargo feature `widths-b`, built into its own target directory; half a batch in the quick tier, ten in the thorough tier) —
+//! 44 further widths of the same shape classes (other residues, other limb counts incl. 9..15
 //! limbs, the remaining bytemuck Pod widths 576..960, ark-ff's 832), so that nothing silently
 //! depends on the particular widths of set A.
 
